@@ -212,7 +212,9 @@ def tlc(work, module, cfg, timeout=600, workers=1, extra=None, consts=None, heap
     if "Parsing or semantic analysis failed" in r.out or "Semantic errors" in r.out:
         bad = True
     if bad or (r.violation and not allow_violation):
-        raise Infra("TLC failed on %s/%s (rc=%d):\n%s" % (module, cfg, r.rc, r.out[-3000:]))
+        i = r.out.find("Error:")
+        msg = "\n".join(l for l in r.out[max(i, 0):].split("\n") if not l.startswith("State ") and not l.startswith("l = ") and l.strip())
+        raise Infra("TLC failed on %s/%s (rc=%d):\n%s" % (module, cfg, r.rc, msg[:2500]))
     shutil.rmtree(meta, ignore_errors=True)
     return r
 
